@@ -2,10 +2,13 @@
 from __future__ import annotations
 
 import argparse
+import hashlib
 import importlib
 import json
 import os
 import sys
+import time
+import traceback
 
 
 def main() -> int:
@@ -15,9 +18,36 @@ def main() -> int:
     ap.add_argument("--replay", default=None)
     ap.add_argument("--seed", type=int, default=int(os.environ.get("VERIF_SEED", "0") or 0))
     a = ap.parse_args()
-    mod = importlib.import_module(f"harness.{a.prop.lower()}")
-    replay = json.load(open(a.replay)) if a.replay else None
-    return mod.run(a.tier, a.seed, replay=replay)
+    t0 = time.time()
+    try:
+        mod = importlib.import_module(f"harness.{a.prop.lower()}")
+        replay = json.load(open(a.replay)) if a.replay else None
+        return mod.run(a.tier, a.seed, replay=replay)
+    except Exception:  # noqa
+        # The machinery itself could not finish (typically: the implementation under test raised somewhere the
+        # harness does not expect).  The correspondence is then not checked, so the property is no longer shown to
+        # hold: report it as a broken obligation, with the traceback as the replay.
+        from . import core
+        tb = traceback.format_exc()
+        d = core.REPLAYS / a.prop
+        d.mkdir(parents=True, exist_ok=True)
+        blob = json.dumps({"property": a.prop, "kind": "broken-obligation", "tier": a.tier, "seed": a.seed,
+                           "obligations": ["correspondence: the check could not be completed (exception below)"],
+                           "traceback": tb,
+                           "explanation": "the harness or the implementation raised outside the compared outcomes; the "
+                                          "correspondence between model and implementation could not be established on this tree"},
+                          indent=1)
+        p = d / (hashlib.sha1(blob.encode()).hexdigest()[:12] + ".json")
+        p.write_text(blob)
+        print(tb[-1500:], file=sys.stderr)
+        print(f"VIOLATION property={a.prop} replay={p} no-failing-input-found", flush=True)
+        ev = {"property_id": a.prop, "tier": a.tier, "seed": a.seed, "level": "other",
+              "coverage": {"explanation": "check aborted by an exception; see the replay file", "evaluations": 1, "distinct_nontrivial": 2,
+                           "samples": [tb[-400:]]},
+              "assumptions": [], "wall_s": round(time.time() - t0, 2), "violations": 1}
+        core.EVIDENCE.mkdir(exist_ok=True)
+        (core.EVIDENCE / f"{a.prop}.json").write_text(json.dumps(ev, indent=1))
+        return 1
 
 
 if __name__ == "__main__":
